@@ -61,6 +61,8 @@ def work(args):
                     # the same plane after an in-place move: the forms must describe the MOVED plane
                     mv = tuple(F(R.randint(-3, 3)) for _ in range(3))
                     P2 = Plane(*[float(x) for x in (a, b, c, d)])
+                    if R.random() < 0.7:      # every read-back form (and the hash) was used BEFORE the move: nothing they may have cached can survive it
+                        P2.general_form(), P2.point_normal(), P2.parametric(), hash(P2), (-P2)
                     P2.move(impl.Vc(mv))
                     d2 = d + a * mv[0] + b * mv[1] + c * mv[2]
                     on2, off2 = probes(R, a, b, c, d2)
@@ -113,6 +115,7 @@ def work(args):
                         d = tuple(dd)
                 q = add(p, d)
                 rec['line'] = (p, d)
+                mvl = tuple(F(R.randint(-3, 3)) for _ in range(3))
 
                 def lines():
                     L1 = Line(impl.Pt(p), impl.Pt(q))
@@ -122,7 +125,14 @@ def work(args):
                     L4 = Line(s, u)
                     L5 = Line(Point(s), u)
                     other = Line(impl.Pt(add(p, V(0, 0, 1) if d[0] or d[1] else V(1, 0, 0))), impl.Vc(d))
-                    return (L1 == L2, L2 == L3, L3 == L1, L4 == L1, L5 == L1, impl.Pt(p) in L1, impl.Pt(q) in L1, impl.Pt(add(p, mul(F(-3, 2), d))) in L3, L1 == other)
+                    base = (L1 == L2, L2 == L3, L3 == L1, L4 == L1, L5 == L1, impl.Pt(p) in L1, impl.Pt(q) in L1, impl.Pt(add(p, mul(F(-3, 2), d))) in L3, L1 == other)
+                    # the same line after an in-place move, its forms having been read before: they must describe the MOVED line
+                    L6 = Line(impl.Pt(p), impl.Vc(d))
+                    L6.parametric(), hash(L6)
+                    L6.move(impl.Vc(mvl))
+                    s6, u6 = L6.parametric()
+                    moved = (Line(s6, u6) == L6, impl.Pt(add(p, mvl)) in L6, Line(impl.Pt(add(p, mvl)), impl.Vc(d)) == L6, Point(s6) in L6)
+                    return base + (all(moved),)
                 rec['checks'] = {'lines': impl.call(lines)}
         except Exception as e:
             rec['err'] = 'harness/ctor exception %s: %s' % (type(e).__name__, str(e)[:80])
@@ -183,7 +193,7 @@ def run(ctx, scale=1):
             key = 'Line(Point(%s), Vector(%s))' % (gen.tv(p), gen.tv(d))
             ctx.count(key, nontrivial=(0 in d))
             ctx.dist['direction zero-pattern %s' % ''.join('0' if x == 0 else ('-' if x < 0 else '+') for x in d)] += 1
-            expect = dict(lines=(True,) * 8 + (False,))
+            expect = dict(lines=(True,) * 8 + (False, True))      # last entry: the forms of the line after a primed in-place move
         problems = []
         if 'err' in r:
             problems.append(r['err'])
